@@ -97,7 +97,7 @@ def run_C05(tier, seed, t0):
     gap_bits = 23 if tier == 'thorough' else 22
     specs = []
     for name in ALL:
-        for d in (['fwd', 'bwd', 'ctx', 'abs'] if name in LABELLED else (['-', 'fwd', 'bwd'] if name == 'li' else ['-'])):
+        for d in (['fwd', 'bwd', 'ctx', 'abs', 'al-fwd', 'al-bwd'] if name in LABELLED else (['-', 'fwd', 'bwd'] if name == 'li' else ['-'])):
             for c in (False, True):
                 specs.append(('harness.pseudo', 'pseudo_task', (name, d, c, li_bits, gap_bits)))
     res = pmap(specs)
@@ -146,7 +146,7 @@ def run_C20(tier, seed, t0):
 
 def _layout_specs(prop, tier, seed):
     from . import templates
-    tl = list(templates.CURATED) + templates.adjacency() + templates.between() + templates.SYMBOLIC_ALIGN
+    tl = list(templates.CURATED) + templates.adjacency() + templates.between() + templates.data_align() + templates.SYMBOLIC_ALIGN
     tl += templates.random_programs(seed, 400 if tier == 'thorough' else 60)
     gap_bits, k_bits, max_paths = 23, 34, 600
     if tier == 'thorough':
@@ -331,6 +331,7 @@ def run_C14(tier, seed, t0):
     specs += [('harness.data', 'include_bytes_task', (k,)) for k in range(3)]
     from .history import BY_PROP as _HIST
     specs += [('harness.history', 'history_task', ('C14', sn, 40 if tier == 'thorough' else 34)) for sn in _HIST['C14']]
+    specs += [('harness.cli', 'cli_task', ('nested_i', 'i_vendor', 'C14')), ('harness.cli', 'cli_task', ('own_dir_i', 'i_src', 'C14'))]
     res = pmap(specs)
     return finish('C14', tier, seed, res, t0,
                   bounds=dict(histories='two assemble() calls in one process with the file system edited in between, second call compared with the same call in a fresh process for every 34/40-bit K0, both modes: ' + ', '.join(_HIST['C14']),
@@ -380,6 +381,7 @@ def run_C16(tier, seed, t0):
               if q[0] in ('ok_then_ok', 'fail_then_ok', 'same_names', 'compress_then_plain', 'compress_both_reordered_labels')]
     specs += [('harness.purity', 'incdirs_task', (s,)) for s in ('B', 'C')]
     specs += [('harness.purity', 'hashseed_task', (t_,)) for t_ in ('depth2_middle', 'twice_and_last')]
+    specs += [('harness.purity', 'hashseed_programs_task', ())]
     from .history import BY_PROP as _HIST
     specs += [('harness.history', 'history_task', ('C16', sn, 40 if tier == 'thorough' else 34)) for sn in _HIST['C16']]
     res = pmap(specs)
@@ -398,7 +400,7 @@ def run_C17(tier, seed, t0):
     hist = [('hist:' + h, av) for h in HISTORIES for av in (('default', 'o', 'o_l', 'l_hex') if tier != 'thorough' else ARGVS)]
     if tier != 'thorough':
         keep = {('range', a) for a in ARGVS} | {(pg, 'o_l') for pg in PROGRAMS} | {(pg, 'l_hex') for pg in PROGRAMS} | \
-               {('data', 'o_hex_bad'), ('li_label', 'hex_bad_l'), ('range', 'hex_sym'), ('li_label', 'hex_sym_l'), ('nolabels', 'defs_v'), ('nolabels', 'hex_sym_l'), ('needs_i', 'i_two'), ('needs_i', 'i_two_dup'), ('nested_i', 'i_vendor'), ('needs_i', 'i_dir'), ('needs_i', 'default'), ('ok_only', 'hex_sym'), ('included', 'i_dir'), ('ok_only', 'defs_v'), ('parse', 'i_bad'), ('li_label', 'default')}
+               {('data', 'o_hex_bad'), ('li_label', 'hex_bad_l'), ('range', 'hex_sym'), ('li_label', 'hex_sym_l'), ('nolabels', 'defs_v'), ('nolabels', 'hex_sym_l'), ('needs_i', 'i_two'), ('needs_i', 'i_two_dup'), ('nested_i', 'i_vendor'), ('own_dir_i', 'i_src'), ('golden_align', 'o_l'), ('golden_align', 'l_hex'), ('needs_i', 'i_dir'), ('needs_i', 'default'), ('ok_only', 'hex_sym'), ('included', 'i_dir'), ('ok_only', 'defs_v'), ('parse', 'i_bad'), ('li_label', 'default')}
         combos = [c for c in combos if c in keep]
     specs = [('harness.cli', 'cli_task', c) for c in combos + hist]
     res = pmap(specs)
